@@ -820,4 +820,10 @@ def c01_flat_conic(ctx):
     return _r(ctx)
 
 
-RULES = [c01_flat_conic, model_anchor, c18_exact_name_first, c04_vertex_curvature, c01_wiring, dispatch, keys_and_wiring, vocab, parm_offset, mode_raises, glass]
+
+def no_stale(ctx):
+    from .common import stale_cache
+    return stale_cache(ctx, 'NO-STALE-STATE', [],
+                       'the imported lens depends on what was imported before', min_methods=0)
+
+RULES = [no_stale, c01_flat_conic, model_anchor, c18_exact_name_first, c04_vertex_curvature, c01_wiring, dispatch, keys_and_wiring, vocab, parm_offset, mode_raises, glass]
